@@ -72,7 +72,7 @@ def delegationsOf (s : Sys) (who : Addr) : List (Addr × Nat) :=
 /-- stable insertion sort ascending by amount (`sort_by(|a,b| a.cmp(b))`) -/
 def insAscAmt (x : Addr × Nat) : List (Addr × Nat) → List (Addr × Nat)
   | [] => [x]
-  | y :: ys => if x.2 < y.2 then x :: y :: ys else y :: insAscAmt x ys
+  | y :: ys => if x.2 ≤ y.2 then x :: y :: ys else y :: insAscAmt x ys
 
 def sortAscAmt (l : List (Addr × Nat)) : List (Addr × Nat) := l.foldr insAscAmt []
 
